@@ -7,6 +7,7 @@ from typing import Dict, List, Optional, Set
 
 from .cfg import attr_path
 from .index import FuncInfo, func_own_nodes, own_nodes
+from .index import aug_value
 
 
 def def_exprs(fn: FuncInfo) -> Dict[str, List[ast.AST]]:
@@ -45,7 +46,7 @@ def def_exprs(fn: FuncInfo) -> Dict[str, List[ast.AST]]:
         elif isinstance(n, ast.AnnAssign) and n.value is not None:
             bind(n.target, n.value)
         elif isinstance(n, ast.AugAssign):
-            bind(n.target, n.value)
+            bind(n.target, aug_value(n))
         elif isinstance(n, (ast.For, ast.AsyncFor)):
             bind(n.target, n.iter)
         elif isinstance(n, ast.comprehension):
